@@ -703,6 +703,8 @@ std::string gen(Rng &r, const Args &a) {
   if (len > 22) len = 22;
 #endif
   // seeding phase: give most slots a bounded, non-trivial starting value
+  // constraints that hold in a slot after the seeding phase (weakened): candidates for entailment queries
+  std::vector<std::vector<std::string>> hints(NP);
   for (unsigned d = 0; d < NP; d++) {
     if (r.below(5) == 0) continue;
 #ifdef D2_VPART
@@ -713,16 +715,23 @@ std::string gen(Rng &r, const Args &a) {
     for (unsigned j = 0; j < nv; j++) {
       unsigned v = r.below(5) == 0 ? 4 + r.below(3) : r.below(4);
       int64_t lo = r.range(-12, 12), hi = lo + r.range(0, 9);
-      switch (r.below(4)) {
+      unsigned kind = r.below(4);
+      switch (kind) {
       case 0: o << " (assign " << d << " v" << v << " (lin " << lo << "))"; break;
       case 1: o << " (assume " << d << " (le (lin " << lo << " (-1 v" << v << "))))"; break;  // v >= lo
       case 2: o << " (assume " << d << " (le (lin " << -hi << " (1 v" << v << "))))"; break;   // v <= hi
       default: o << " (assume " << d << " (le (lin " << lo << " (-1 v" << v << "))) (le (lin " << -hi << " (1 v" << v << "))))"; break;
       }
+      if (kind == 0) hi = lo;
+      if (kind != 2) hints[d].push_back("(le (lin " + std::to_string(lo - r.range(0, 3)) + " (-1 v" + std::to_string(v) + ")))");
+      if (kind != 1) hints[d].push_back("(le (lin " + std::to_string(-hi - r.range(0, 3)) + " (1 v" + std::to_string(v) + ")))");
+      if (kind == 0 && r.coin()) hints[d].push_back("(eq (lin " + std::to_string(-lo) + " (1 v" + std::to_string(v) + ")))");
     }
     if (r.below(3) == 0) {
       unsigned x = r.below(4), y = (x + 1 + r.below(3)) % 4;
-      o << " (assume " << d << " (le (lin " << r.range(-5, 5) << " (1 v" << x << ") (-1 v" << y << "))))";
+      int64_t c = r.range(-5, 5);
+      o << " (assume " << d << " (le (lin " << c << " (1 v" << x << ") (-1 v" << y << "))))";
+      hints[d].push_back("(le (lin " + std::to_string(c - r.range(0, 2)) + " (1 v" + std::to_string(x) + ") (-1 v" + std::to_string(y) + ")))");
     }
     if (r.below(3) == 0) o << " (bcst " << d << " " << B(r.below(NB)) << " " << gen_cst(r, pick_group(r), big_ok, nullptr, true) << ")";
   }
@@ -780,6 +789,7 @@ std::string gen(Rng &r, const Args &a) {
       // share their representation: this is where a missing detach / clone shows (C16)
       unsigned src = r.below(NP);
       o << " (copy " << d << " " << src << ")";
+      hints[d] = hints[src];
       if (r.below(3) != 0) {
         unsigned t = r.coin() ? d : src;
         switch (r.below(8)) {
@@ -807,12 +817,19 @@ std::string gen(Rng &r, const Args &a) {
     else if (k < 118) o << " (bassume " << d << " " << B(r.below(NB)) << " " << r.below(2) << ")";
     else if (k < 119) o << " (bsel " << d << " " << B(r.below(NB)) << " " << B(r.below(NB)) << " " << B(r.below(NB)) << " " << B(r.below(NB)) << ")";
     else if (k < 122) { // entailment query: often a consequence of the seeding
-      if (r.coin()) o << " (entails " << d << " " << gen_cst(r, g, big_ok, nullptr, true) << ")";
+      if (!hints[d].empty() && r.below(3) != 0) o << " (entails " << d << " " << hints[d][r.below(hints[d].size())] << ")";
+      else if (r.coin()) o << " (entails " << d << " " << gen_cst(r, g, big_ok, nullptr, true) << ")";
       else { unsigned v = gpick(r, g); bool up = r.coin(); o << " (entails " << d << " (le (lin " << (up ? -r.range(0, 30) : -r.range(0, 20)) << " (" << (up ? 1 : -1) << " v" << v << "))))"; }
     }
     // ---- casts
     else if (k < 126) {
-      o << " (cast " << d << " " << gen_cast(r) << ")";
+      std::string c = gen_cast(r);
+      // a truncation to a Boolean is only exercised on 0 / 1: mostly restrict the source first
+      if (c.compare(0, 7, "trunc b") == 0 && r.below(4) != 0) {
+        std::string src = c.substr(c.rfind(' ') + 1);
+        o << " (assume " << d << " (le (lin 0 (-1 " << src << "))) (le (lin -1 (1 " << src << "))))";
+      }
+      o << " (cast " << d << " " << c << ")";
     }
 #ifdef D2_VPART
     else if (k < 128) o << " (vpstart " << d << " v" << r.below(NV) << ")";
